@@ -41,6 +41,14 @@ type c07Params struct {
 	Live   bool         `json:"live,omitempty"`  // a live fence connection on key k participates
 	Expire bool         `json:"expire,omitempty"`
 	Spin   bool         `json:"spinlock,omitempty"`
+	Prop   string       `json:"prop,omitempty"` // property the scenario reports under (default C07)
+}
+
+func (p c07Params) prop() string {
+	if p.Prop != "" {
+		return p.Prop
+	}
+	return "C07"
 }
 
 type c07Op struct {
@@ -218,7 +226,7 @@ func c07Run(job *Job, p c07Params, prefix []int) (out schedOut) {
 		out.Trace = append([]vsched.ChoicePoint(nil), vsched.Trace...)
 		out.Diverged = vsched.Diverged
 		if len(vsched.Crashes) > 0 {
-			out.VSig = "C07/server-crash:" + p.Name
+			out.VSig = p.prop() + "/server-crash:" + p.Name
 			out.VDetail = vsched.Crashes[0].Value + "\n" + vsched.Crashes[0].Stack
 			return
 		}
@@ -258,8 +266,8 @@ func c07Run(job *Job, p c07Params, prefix []int) (out schedOut) {
 			replies = append(replies, fmt.Sprintf("%d.%d=%s@%d", o.conn, o.idx, o.reply, pos[len(replies)]))
 		}
 		out.Obs = strings.Join(replies, " ") + " | " + final
-		if lockViol != "" {
-			out.VSig = "C07/lock-discipline:" + p.Name
+		if lockViol != "" && p.prop() == "C07" {
+			out.VSig = p.prop() + "/lock-discipline:" + p.Name
 			out.VDetail = lockViol
 			return
 		}
@@ -267,7 +275,7 @@ func c07Run(job *Job, p c07Params, prefix []int) (out schedOut) {
 		// delete an object carrying a deadline at any point of the order)
 		why := c07Linearize(base, ops, p.After, pos, final, p.Expire)
 		if why != "" {
-			out.VSig = "C07/not-linearizable:" + p.Name
+			out.VSig = p.prop() + "/not-linearizable:" + p.Name
 			out.VDetail = why + " | observed: " + out.Obs
 		}
 	})
@@ -290,7 +298,7 @@ func c07Linearize(base *mState, ops []*c07Op, after map[int]int, pos []int, fina
 		c := st.clone()
 		for _, k := range sortedKeys(c.Cols) {
 			for _, id := range sortedKeys(c.Cols[k]) {
-				if c.Cols[k][id].Dead {
+				if o := c.Cols[k][id]; o.Dead && o.TTL < 10 { // only deadlines that pass during the scenario
 					c.del(k, id)
 				}
 			}
@@ -518,4 +526,50 @@ func checkC07Lock(job *Job, res *Result) {
 		}
 	}
 	res.States += len(names)
+}
+
+// ---- C14 schedules part: client commands racing the expiry sweeper at the
+// tick at which it first sees the object expired.
+
+func c14SchedScenarios() []c07Params {
+	pre := [][]string{w("SET k a POINT 1 1"), w("SET k e EX 1.1 POINT 6 6")}
+	one := func(s string) [][]string { return [][]string{w(s)} }
+	mk := func(name string, conns ...[][]string) c07Params {
+		return c07Params{Name: name, Pre: pre, Conns: conns, Expire: true, Prop: "C14"}
+	}
+	return []c07Params{
+		mk("persist-vs-sweeper", one("PERSIST k e"), one("GET k e")),
+		mk("expire-vs-sweeper", one("EXPIRE k e 100"), one("TTL k e")),
+		mk("set-noex-vs-sweeper", one("SET k e POINT 6 6"), one("GET k e")),
+		mk("set-ex-vs-sweeper", one("SET k e EX 100 POINT 6 6"), one("SCAN k")),
+		mk("fset-vs-sweeper", one("FSET k e f 1"), one("GET k e WITHFIELDS")),
+		mk("del-set-vs-sweeper", [][]string{w("DEL k e"), w("SET k e POINT 6 6")}),
+	}
+}
+
+func init() { checks["c14sched"] = checkC14Sched }
+
+func checkC14Sched(job *Job, res *Result) {
+	res.Rule = "SCHED: client TTL commands released at the sweeper tick that first sees the object expired; every schedule within the preemption bound; linearizability with the sweeper as an actor that may delete only objects whose deadline has passed"
+	if job.Replay != nil {
+		replaySched(job, res, func(params []byte, sched []int) schedOut {
+			var p c07Params
+			mustJSON(params, &p)
+			return c07Run(job, p, sched)
+		})
+		return
+	}
+	bound := 2
+	if b, ok := job.Params["bound"].(float64); ok {
+		bound = int(b)
+	}
+	for _, p := range c14SchedScenarios() {
+		p := p
+		sc := schedScenario{Name: "c14." + p.Name, Params: p, Run: func(prefix []int) schedOut { return c07Run(job, p, prefix) }}
+		st := exploreSched(job, res, sc, bound)
+		res.Extra[sc.Name] = map[string]any{"execs": st.Execs, "outcomes": len(st.Outcomes), "max_choice_points": st.MaxPoints}
+		if res.EngineError != "" {
+			return
+		}
+	}
 }
